@@ -1224,6 +1224,71 @@ fn c13_end_to_end(ctx: &Ctx, sink: &mut Sink) -> Value {
     json!({"scenarios": report, "stand_in_chronyd": "answers tracking requests on /var/run/chrony/chronyd.sock in a private mount namespace; reference time = real clock - 1 s"})
 }
 
+/// The daemon-side clause through the release binary and the real transport: a stand-in chronyd whose k-th reply
+/// is recognisable in the published bound (its dispersion is 10 ms + k ms) and which notes when each request
+/// arrived. Whatever report a publication carries, its as-of must not be later than the arrival of the request
+/// that produced that report. Replies 300 ms late; the first reply 1.3 s late (beyond the client's timeout: it
+/// retransmits); and chronyd reachable on its UDP command port only (private network namespace).
+fn c12_end_to_end(ctx: &Ctx, sink: &mut Sink) -> Value {
+    use crate::procmc::e2e::{self, Scenario, ID_OTHER};
+    let bin = e2e::binary(ctx);
+    if !std::path::Path::new(&bin).exists() {
+        return json!({"skipped": format!("release binary {bin} not built")});
+    }
+    let scenarios = vec![
+        Scenario { name: "every reply 300 ms late", chronyd: Some((ID_OTHER, 0)), tag_replies: true, reply_delays_ms: vec![300], observe_ms: 3500, ..Scenario::blank() },
+        Scenario { name: "first reply 1.3 s late, the others prompt", chronyd: Some((ID_OTHER, 0)), tag_replies: true, reply_delays_ms: vec![1300, 0], observe_ms: 4500, ..Scenario::blank() },
+        Scenario { name: "chronyd on UDP 127.0.0.1:323 only, first reply 1.3 s late", chronyd: Some((ID_OTHER, 0)), tag_replies: true, reply_delays_ms: vec![1300, 0], udp_only: true, observe_ms: 4500, ..Scenario::blank() },
+    ];
+    let results: Vec<Result<Value, String>> = std::thread::scope(|s| {
+        let hs: Vec<_> = scenarios.iter().map(|sc| { let bin = bin.clone(); s.spawn(move || e2e::run_scenario(&bin, sc)) }).collect();
+        hs.into_iter().map(|h| h.join().unwrap_or_else(|_| Err("scenario thread panicked".into()))).collect()
+    });
+    let mut report = vec![];
+    for (sc, r) in scenarios.iter().zip(results) {
+        let v = match r {
+            Ok(v) => v,
+            Err(e) => machinery_failure(&format!("C12 end-to-end scenario '{}': {e}", sc.name)),
+        };
+        if let Some(u) = v["unavailable"].as_str() {
+            if sc.udp_only {
+                report.push(json!({"scenario": sc.name, "skipped": u}));
+                continue;
+            }
+            return json!({"skipped": format!("the sandbox does not allow it: {u}")});
+        }
+        let arrivals: Vec<i128> = v["chronyd_request_arrivals_mono_ns"].as_array().map(|a| a.iter().filter_map(|x| x.as_str().and_then(|s| s.parse().ok())).collect()).unwrap_or_default();
+        let pubs = v["publications"].as_array().cloned().unwrap_or_default();
+        let doc = json!({"check": "C12", "phase": "end to end through the release binary", "scenario": sc.name, "observed": v});
+        let mut attributed = 0;
+        for p in &pubs {
+            if p["status"] != 1 {
+                continue;
+            }
+            let b = p["bound_ns"].as_i64().unwrap_or(-1) as i128;
+            let as_of: i128 = p["as_of_ns"].as_str().and_then(|s| s.parse().ok()).unwrap_or(0);
+            let k = (0..arrivals.len()).find(|k| {
+                let (lo, hi) = crate::gridmc::boundgrid::accepted_bound(&e2e::tagged_spec(ID_OTHER, 0, 0, *k), 0).unwrap();
+                b >= lo && b <= hi
+            });
+            match k {
+                Some(k) => {
+                    attributed += 1;
+                    if as_of > arrivals[k] + 2_000_000 {
+                        sink.add("C12:e2e:as-of-after-the-request".into(), format!("{}: a publication carries chronyd's reply number {k} (bound {b} ns) with as-of {as_of} ns, {} ms AFTER that request reached chronyd", sc.name, (as_of - arrivals[k]) / 1_000_000), doc.clone());
+                    }
+                }
+                None => sink.add("C12:e2e:unattributable-report".into(), format!("{}: a Synchronized publication with bound {b} ns matches none of the {} replies chronyd sent", sc.name, arrivals.len()), doc.clone()),
+            }
+        }
+        if !sc.udp_only && attributed == 0 {
+            sink.add("C12:e2e:nothing-published".into(), format!("{}: no Synchronized publication within {} ms", sc.name, sc.observe_ms), doc.clone());
+        }
+        report.push(json!({"scenario": sc.name, "requests_seen_by_chronyd": arrivals.len(), "synchronized_publications_attributed": attributed}));
+    }
+    json!({"scenarios": report})
+}
+
 pub fn run_c12(ctx: &Ctx) -> i32 {
     let mut sink = Sink::new();
     let deltas: Vec<i64> = ctx.tier.pick(vec![0, 1, 1_000_000, 10 * S as i64], vec![0, 1, 2, 999, 1000, 1_000_000, 4_000_000, S as i64, 3 * S as i64, 10 * S as i64, 1000 * S as i64]);
@@ -1416,7 +1481,9 @@ pub fn run_c12(ctx: &Ctx) -> i32 {
             }
         }
     }
+    let e2e = c12_end_to_end(ctx, &mut sink);
     let coverage = cov(vec![
+        ("end_to_end_through_the_release_binary", e2e),
         ("evaluations", json!(n)),
         ("distinct_nontrivial", json!(n)),
         ("rule", json!("cross product of (virtual time advance per clock read) x (reply latency) x (chronyd answers / silent) x (PHC not configured / configured and the reference / configured and not the reference / the reference with its error bound unreadable) on the daemon side and (advance per read) x (record age) x (API route) on the client side; every read of every clock is logged by the interposed clock_gettime; all cases distinct")),
